@@ -275,6 +275,22 @@ def VF.after (f : VF V) (r : M (VF V)) : VF V :=
   | .error _ => f
   | .ok g => g
 
+/-- one assignment to an existing field -/
+inductive Assign (V : Type) where
+  /-- `field.array = val` -/
+  | set (l : Leaf V)
+  /-- `field.update_field_values(val)` -/
+  | upd (s : Spec V)
+
+/-- the field object after one (accepted or rejected) assignment -/
+def VF.step (isZero : V → Bool) (f : VF V) (op : Assign V) : VF V :=
+  match op with
+  | .set l => f.after (f.setArray isZero l)
+  | .upd s => f.after (f.update isZero s)
+
+/-- the field object after a sequence of assignments, each one accepted or rejected -/
+def VF.run (isZero : V → Bool) (f : VF V) (ops : List (Assign V)) : VF V := ops.foldl (VF.step isZero) f
+
 /-- `Field.__getattr__(label)`: `array[..., vdims.index(label), np.newaxis]` handed to the
 constructor of a scalar field -/
 def VF.comp (isZero : V → Bool) (f : VF V) (label : String) : M (VF V) :=
@@ -334,5 +350,90 @@ def VF.line (f : VF V) (p1 p2 : List Rat) (n : Nat) : M (LineOut V) :=
     match seqM (pts.map f.call) with
     | .error e => .error e
     | .ok vals => .ok ⟨pts, vals, pts.map fun p => sqDist p (pts.getD 0 [])⟩
+
+/-! ### the data frame of a line (`Line.__init__`) and its column names (`Field.line`) -/
+
+/-- a column of the data frame: the distances from the first point (held SQUARED: the frame's
+`r` column is their square root), coordinates, or field values -/
+inductive Col (V : Type) where
+  | dist2 (xs : List Rat)
+  | num (xs : List Rat)
+  | val (xs : List V)
+
+/-- `data[name] = col` on a pandas data frame: an existing column is overwritten in place (it
+keeps its position), a new name is appended -/
+def setCol (fr : List (String × Col V)) (name : String) (c : Col V) : List (String × Col V) :=
+  match fr with
+  | [] => [(name, c)]
+  | (k, x) :: rest => if k = name then (k, c) :: rest else (k, x) :: setCol rest name c
+
+/-- `value_columns=[f"v{dim}" for dim in self.vdims] if self.vdims is not None else (["v"] if
+self.nvdim == 1 else [f"v{i}" for i in range(self.nvdim)])`: labelled components are `v<label>`, an
+unlabelled scalar field has the one column `v`, an unlabelled vector field `v0, v1, …` -/
+def valueColumns (vdims : Option (List String)) (nv : Nat) : List String :=
+  match vdims with
+  | some vs => vs.map fun d => "v" ++ d
+  | none => if nv = 1 then ["v"] else (List.range nv).map fun i => s!"v{i}"
+
+/-- the assignments `Line.__init__` performs, in order: `data["r"] = …`, then
+`for i, column in enumerate(point_columns): data[column] = points[..., i]`, then
+`for i, column in zip(range(values.shape[-1]), value_columns): data[column] = values[..., i]`
+(`zip` stops at the shorter of the two).  The distance column is held squared. -/
+def frameAssigns [Inhabited V] (dims vcols : List String) (nv : Nat) (o : LineOut V) : List (String × Col V) :=
+  ("r", Col.dist2 o.r2) ::
+    ((tab dims.length fun a => (dims.getD a "", Col.num (o.points.map fun p => p.getD a 0))) ++
+     (tab (min nv vcols.length) fun c => (vcols.getD c "", Col.val (o.values.map fun v => v.getD c default))))
+
+def applyAssigns (fr : List (String × Col V)) : List (String × Col V) → List (String × Col V)
+  | [] => fr
+  | p :: rest => applyAssigns (setCol fr p.1 p.2) rest
+
+/-- `Line(points, values, point_columns, value_columns).data` -/
+def lineFrame [Inhabited V] (dims vcols : List String) (nv : Nat) (o : LineOut V) : List (String × Col V) :=
+  applyAssigns [] (frameAssigns dims vcols nv o)
+
+/-- `data[name]` -/
+def colOf (fr : List (String × Col V)) (name : String) : Option (Col V) :=
+  (fr.find? fun p => p.1 == name).map (·.2)
+
+/-- `Field.line(p1, p2, n).data`: point columns are named after the mesh dimensions, value columns
+`v<label>` (or `v`) -/
+def VF.lineData [Inhabited V] (f : VF V) (p1 p2 : List Rat) (n : Nat) : M (List (String × Col V)) :=
+  match f.line p1 p2 n with
+  | .error e => .error e
+  | .ok o => .ok (lineFrame f.mesh.region.dims (valueColumns f.vdims f.nvdim) f.nvdim o)
+
+/-! ### component labels: the `vdims` setter as the constructor runs it (`_vdims` is `None` before) -/
+
+/-- labels given when the caller passes `vdims=None` -/
+def defaultLabels (nv : Nat) : Option (List String) :=
+  if 2 ≤ nv ∧ nv ≤ 3 then some (["x", "y", "z"].take nv)
+  else if 3 < nv then some ((List.range nv).map fun i => s!"v{i}")
+  else none
+
+/-- `self.vdims = vdims` in `Field.__init__`; `reserved` = the names for which `hasattr(self, c)`
+holds on a field without labels (attributes, properties and methods of the class) -/
+def vdimsSet (reserved : List String) (nv : Nat) (vdims : Option (List String)) : M (Option (List String)) :=
+  match vdims with
+  | none => .ok (defaultLabels nv)
+  | some vs =>
+    if vs.length = 0 then .ok none
+    else if vs.length ≠ nv then .error .value
+    else if hasDup vs then .error .value
+    else if vs.any fun c => reserved.contains c then .error .value
+    else .ok (some vs)
+
+/-- `Field(mesh, nvdim=…, value=…, vdims=…)`: `nvdim` check, `update_field_values`, `vdims` setter
+(in this order) -/
+def VF.new? [Inhabited V] (isZero : V → Bool) (reserved : List String) (m : Mesh) (nv : Nat) (s : Spec V)
+    (vdims : Option (List String)) : M (VF V) :=
+  if nv < 1 then .error .value
+  else
+    match updateValues isZero s m nv with
+    | .error e => .error e
+    | .ok a =>
+      match vdimsSet reserved nv vdims with
+      | .error e => .error e
+      | .ok vd => .ok ⟨m, nv, a, vd⟩
 
 end DFV.C02
